@@ -369,11 +369,16 @@ func (x *Exec) havocArray(st *State, name, below string, except []string) {
 	nw := x.declare(st, name, srt)
 	st.heap[name] = nw
 	q := x.fresh("r")
-	cond := []string{app("<", q, below)}
+	// the nil object (reference 0) is never written, whatever the modifies clause evaluates to
+	var notMod []string
 	for _, m := range except {
-		cond = append(cond, not(modMatch(q, m)))
+		notMod = append(notMod, not(modMatch(q, m)))
 	}
-	x.assume(st, "(forall (("+q+" Int)) (! (=> "+and(cond...)+" (= (select "+nw+" "+q+") (select "+old+" "+q+"))) :pattern ((select "+nw+" "+q+"))))")
+	cond := and(app("<", q, below), or(eq(q, "0"), and(notMod...)))
+	x.assume(st, "(forall (("+q+" Int)) (! (=> "+cond+" (= (select "+nw+" "+q+") (select "+old+" "+q+"))) :pattern ((select "+nw+" "+q+"))))")
+	if name == "MC" {
+		x.assume(st, "(forall (("+q+" Int)) (! (>= (select "+nw+" "+q+") 0) :pattern ((select "+nw+" "+q+"))))")
+	}
 }
 
 func sortedKeys(m map[string]bool) []string {
@@ -558,7 +563,7 @@ func (x *Exec) appendOp(st *State, fr *Frame, in ssa.Instruction, cc *ssa.CallCo
 		tlen = app("s_len", t)
 		tget = func(i string) string { return app("select", app("select", arr, app("s_arr", t)), app("+", app("s_off", t), i)) }
 	}
-	r := x.allocRef(st)
+	r := x.allocRefT(st, sT)
 	na := x.declare(st, "apd", "(Array Int "+es+")")
 	q := x.fresh("i")
 	slen := app("s_len", s)
